@@ -1,6 +1,165 @@
 import Driver.Util
-open Lean
+import DoitModel.Model.Opt
+open Lean DoitModel.Opt
 namespace Driver.Opt
-/-- handler for requests with `"model": "opt"` (stub: filled in when the model exists) -/
-def handle (_ : Json) : Json := Driver.err "model not implemented"
+/-! requests with `"model":"opt"`:
+
+  common fields  `spec`: [{"name","type":"bool|int|str|list","default":VAL,"short":"x"|"","long","inverse","choices":[VAL],"env_var":str|null}]
+                 `env`: [[name,value]]   `ini`, `glob`: [[key, {"raw":str} | {"val":VAL}]] (command/task section, GLOBAL section)   `dodo`: [[key, VAL]]   `argv`: [str]
+                 VAL = null | bool | int | str | [str]
+  `op`:
+   * "parse"    -> parse twice with the same parser object (state threaded): {"wf","res","res2","defaults","defaults2"}
+                   ("pinned": true uses the pre-fix list `append`)
+   * "pipeline" -> overwrite_defaults(ini) ; parse ; update_defaults(dodo): {"wf","res"}
+   * "spec"     -> `asgs` (structured assignments), `sep` (bool), `pos`: the argv `render` builds, whether the
+                   hypotheses of the round-trip theorem hold, and the value the *specification* gives every option:
+                   {"argv","hyp_ok","wf","expect": {"err":true} | {"vals":[[name,VAL]],"pos":[...]}}
+   * "wf"       -> {"wf","prefix_free","short":[..],"long":[..]}
+  result: {"ok":{"vals":[[name,VAL|"<missing>"]],"nd":[name],"pos":[str]}} | {"err":kind} -/
+
+def s2l (s : String) : Str := s.toList
+def l2s (l : Str) : String := String.ofList l
+
+def valOf : Json → Option Val
+  | .null => some .none
+  | .bool b => some (.b b)
+  | .str s => some (.s (s2l s))
+  | .arr a => some (.l (a.toList.map fun x => s2l (asStr x)))
+  | j => (j.getInt?).toOption.map Val.i
+
+def valJson : Val → Json
+  | .none => Json.null
+  | .b x => Json.bool x
+  | .i x => toJson x
+  | .s x => Json.str (l2s x)
+  | .l xs => mkArr (xs.map fun x => Json.str (l2s x))
+
+def tyOf : String → Option Ty
+  | "bool" => some .bool | "int" => some .int | "str" => some .str | "list" => some .list | _ => none
+
+def optOf (j : Json) : Option Opt := do
+  let ty ← tyOf (jstr j "type")
+  let d ← valOf (jobj j "default")
+  let sh := s2l (jstr j "short")
+  let short ← match sh with
+    | [] => some none
+    | [c] => some (some c)
+    | _ => none
+  let choices ← (jarr j "choices").mapM valOf
+  let ev := match jobj j "env_var" with
+    | .str s => if s = "" then none else some (s2l s)
+    | _ => none
+  pure { name := s2l (jstr j "name"), ty := ty, default := d, short := short, long := s2l (jstr j "long"),
+         inverse := s2l (jstr j "inverse"), choices := choices, envVar := ev }
+
+def envOfJson (j : Json) : Str → Option Str :=
+  let tbl : List (Str × Str) := (jarr j "env").map fun kv =>
+    match asArr kv with
+    | [k, v] => (s2l (asStr k), s2l (asStr v))
+    | _ => ([], [])
+  fun k => DoitModel.alookup k tbl
+
+def cfgOf (j : Json) : Option CfgVal :=
+  if jhas j "raw" then some (.raw (s2l (jstr j "raw")))
+  else (valOf (jobj j "val")).map CfgVal.typed
+
+def iniOf (j : Json) (field : String) : Option (List (Str × CfgVal)) :=
+  (jarr j field).mapM fun kv =>
+    match asArr kv with
+    | [k, v] => (cfgOf v).map fun c => (s2l (asStr k), c)
+    | _ => none
+
+def dodoOf (j : Json) : Option (List (Str × Val)) :=
+  (jarr j "dodo").mapM fun kv =>
+    match asArr kv with
+    | [k, v] => (valOf v).map fun c => (s2l (asStr k), c)
+    | _ => none
+
+def errName : Err → String
+  | .unknownShort => "unknown" | .unknownLong => "unknown" | .ambiguous => "ambiguous"
+  | .needsArg => "needs-arg" | .noArg => "no-arg" | .badInt => "bad-value" | .badBool => "bad-value"
+  | .badChoice => "bad-choice" | .crash => "crash"
+
+def dedup (xs : List Str) : List Str := xs.foldl (fun acc x => if x ∈ acc then acc else acc ++ [x]) []
+
+def resJson (names : List Str) : Except Err (Params × List Str) → Json
+  | .error e => Json.mkObj [("err", Json.str (errName e))]
+  | .ok (p, pos) =>
+    Json.mkObj [("ok", Json.mkObj [
+      ("vals", mkArr (names.map fun n => mkArr [Json.str (l2s n),
+          match p.vals n with | some v => valJson v | none => Json.str "<missing>"])),
+      ("nd", mkArr ((names.filter p.nd).map fun n => Json.str (l2s n))),
+      ("pos", mkArr (pos.map fun x => Json.str (l2s x)))])]
+
+def asgOf (j : Json) : Option Asg :=
+  match asArr j with
+  | [t, a] =>
+    match asStr t with
+    | "flags" => some (.flags (s2l (asStr a)))
+    | "lFlag" => some (.lFlag (s2l (asStr a)))
+    | _ => none
+  | [t, a, b] =>
+    match asStr t with
+    | "lEq" => some (.lEq (s2l (asStr a)) (s2l (asStr b)))
+    | "lDet" => some (.lDet (s2l (asStr a)) (s2l (asStr b)))
+    | _ => none
+  | [t, a, b, c] =>
+    match s2l (asStr b) with
+    | [ch] =>
+      match asStr t with
+      | "sAtt" => some (.sAtt (s2l (asStr a)) ch (s2l (asStr c)))
+      | "sDet" => some (.sDet (s2l (asStr a)) ch (s2l (asStr c)))
+      | _ => none
+    | _ => none
+  | _ => none
+
+def defaultsJson (st : PState) : Json := mkArr (st.map fun o => valJson o.default)
+
+def exceptAll (spec : List Opt) (f : Opt → Except Err Val) : Option (List (Str × Val)) :=
+  spec.mapM fun o => match f o with | .ok v => some (o.name, v) | .error _ => none
+
+def handle (j : Json) : Json :=
+  match (jarr j "spec").mapM optOf, iniOf j "ini", iniOf j "glob", dodoOf j with
+  | some spec, some sec, some glob, some dodo =>
+    let ini := mergeCfg glob sec
+    let env := envOfJson j
+    let argv := (jstrs j "argv").map s2l
+    let names := dedup (spec.map (·.name) ++ dodo.map (·.1))
+    let wf := Json.bool (WF spec)
+    match jstr j "op" with
+    | "parse" =>
+      let pinned := jbool j "pinned"
+      let r1 := parse pinned spec env argv
+      let r2 := parse pinned r1.1 env argv
+      Json.mkObj [("wf", wf), ("res", resJson names r1.2), ("res2", resJson names r2.2),
+                  ("defaults", defaultsJson r1.1), ("defaults2", defaultsJson r2.1)]
+    | "pipeline" =>
+      Json.mkObj [("wf", wf), ("res", resJson names (pipeline spec ini dodo env argv))]
+    | "spec" =>
+      match (jarr j "asgs").mapM asgOf with
+      | none => Driver.err "bad asg"
+      | some xs =>
+        let pos := (jstrs j "pos").map s2l
+        let sep := jbool j "sep"
+        let argv := renderAll xs ++ (if sep then ['-', '-'] :: pos else pos)
+        let sT := shortTable spec
+        let lT := longTable spec
+        let hyp := xs.all (Asg.ok sT lT) && (sep || PosOk pos)
+        let ps := pairsAll xs
+        let expect :=
+          if allConvert spec ini env ps then
+            match exceptAll spec (specOf spec ini dodo env ps) with
+            | some vals => Json.mkObj [("vals", mkArr (vals.map fun nv => mkArr [Json.str (l2s nv.1), valJson nv.2])),
+                                       ("pos", mkArr (pos.map fun x => Json.str (l2s x)))]
+            | none => Json.mkObj [("err", Json.bool true)]
+          else Json.mkObj [("err", Json.bool true)]
+        Json.mkObj [("wf", wf), ("hyp_ok", Json.bool hyp), ("argv", mkArr (argv.map fun x => Json.str (l2s x))),
+                    ("expect", expect)]
+    | "wf" =>
+      Json.mkObj [("wf", wf), ("prefix_free", Json.bool (PrefixFree spec)),
+                  ("short", mkArr ((shortNames spec).map fun c => Json.str (String.singleton c))),
+                  ("long", mkArr ((longNames spec).map fun n => Json.str (l2s n)))]
+    | _ => Driver.err "bad op"
+  | _, _, _, _ => Driver.err "bad spec/ini/dodo"
+
 end Driver.Opt
